@@ -532,6 +532,15 @@ def with_lead(rng, func, p=0.5):
     lead = [rng.choice(list(fam)) for fam in LEAD_FAMILIES if rng.random() < 0.4]
     if not lead:
         lead = [rng.choice(list(rng.choice(LEAD_FAMILIES)))]
+    # return attributes (positions 63-68: inreg noalias nonnull noundef signext zeroext), a LIST: repeats and any order are kept
+    if ret != "void" and rng.random() < 0.4:
+        if ret[0] == "i" and ret[1:].isdigit():
+            pool = [63, 66, 67, 68]
+        elif ret.endswith("*"):
+            pool = [63, 64, 65, 66]
+        else:
+            pool = [63, 66]
+        lead += [rng.choice(pool) for _ in range(rng.choice([1, 1, 2, 3]))]
     return ret, name + "~" + ",".join(map(str, lead)), pdesc, bdesc
 
 
